@@ -3,7 +3,9 @@ use crate::ev::Tier;
 pub mod common;
 pub mod c01;
 pub mod c02;
+pub mod c04;
 pub mod c05;
+pub mod c06;
 pub mod c14;
 
 pub fn dispatch(pos: &[String], tier: Tier, seed: u64, replay: Option<String>) -> i32 {
@@ -13,7 +15,9 @@ pub fn dispatch(pos: &[String], tier: Tier, seed: u64, replay: Option<String>) -
         "probe" => common::debug_probe(pos),
         "C01" => c01::run(tier, seed, replay),
         "C02" => c02::run(tier, seed, replay),
+        "C04" => c04::run(tier, seed, replay),
         "C05" => c05::run(tier, seed, replay),
+        "C06" => c06::run(tier, seed, replay),
         "C14" => c14::run(tier, seed, replay),
         _ => {
             eprintln!("unknown property {id}");
